@@ -470,6 +470,11 @@ def gen_sound(tier, seed, env_text):
                  [mk_call("f0", [C("dict", P(Sx("a"), dk("x", "y")), P(Sx("z"), A("int"))), A("NoneType")], A("int"))]]
     add("equally named positions in several functions / a field named like its parameter, different record shapes",
         same_name, [2, 3], ["NONE", "DEFAULT"], [""])
+    # string keys that cannot be written as a field of a class-syntax TypedDict
+    odd = [[mk_call(f, [dk("content-type", "a")], dk("class"))] for f in ("f1", "K.m")] + \
+          [[mk_call("f1", [C("list", dk("1abc"), dk("a"))], dk("a b", "b"))], [mk_call("f0", [dk("a"), dk("")], C("list", dk("def", "x-y")))]]
+    add("dicts whose string keys are not Python identifiers (content-type, class, 1abc, the empty string)", odd, [0, 2, 3],
+        ["NONE", "DEFAULT"], [""])
     # the very same object is an argument and the return / yield value, changed in place in between
     inplace = [[mk2("fm", dk("x"), A("int"))], [mk2("fm", dk("x", "y"), A("NoneType"))], [mk2("fm", dk("x", "y"), Sx("z"))],
                [mk2("fm", C("list", dk("a")), dk("b"))], [mk2("fm", C("list", dk("a")), A("int")), mk2("fm", dk("x"), A("NoneType"))],
